@@ -2,6 +2,7 @@
 from .. import common as C, structs as S, valgen as V, refcodec as R, seqgen as G
 
 LEAN_MODULES = ["ZvtVerif.Properties.C15"]
+TRANSLATED = {"structs", "sequences"}      # translated tables this property consumes (a translator problem elsewhere does not break its tie)
 ASSUMPTIONS = ["reply table (enum -> variants -> control field) taken from the frozen specification table"]
 
 
